@@ -139,6 +139,7 @@ def vlookup(key, table, col, rl=True, horizontal=False):
 
 _CRIT = re.compile(r'^(>=|<=|<>|>|<|=)?(.*)$', re.S)
 YES, NO, EITHER = 'yes', 'no', 'either'
+BLANK = type('Blank', (), {'__repr__': lambda self: 'BLANK'})()
 
 
 def parse_criterion(crit):
@@ -151,7 +152,9 @@ def parse_criterion(crit):
     op, rest = _CRIT.match(crit).groups()
     op = op or '='
     if rest == '':
-        return None                     # blank-matching criteria: not judged
+        if op in ('<>', '=') and crit != '':
+            return op, BLANK            # bare operator: the (not) blank cells
+        return None                     # other blank-matching criteria: not judged
     n = rs.to_number(rest)
     if n != rs.VALUE:
         return op, n
@@ -162,6 +165,16 @@ def parse_criterion(crit):
 
 def member(cell, op, x):
     """Does the cell satisfy the criterion - compared within its own type."""
+    if x is BLANK:
+        # `=`: the blank cells; `<>`: Excel counts every cell holding something,
+        # the statement (own type, i.e. `<>""`) the non-empty texts
+        if tid(cell) == 'z':
+            return YES if op == '=' else NO
+        if cell == '' and tid(cell) == 't':
+            return EITHER
+        if op == '=':
+            return NO
+        return YES if tid(cell) == 't' else EITHER
     kc, kx = tid(cell), tid(x)
     if kc == 'e':
         # an error value satisfies no criterion of another type; for <> the
